@@ -47,25 +47,16 @@ Proof.
 Qed.
 Print Assumptions C30_lih_monotone_forward.
 
-(* ... but NOT after a rollback: the undo closures restore DPOSStartHeight and
-   leave LastIrreversibleHeight (C21's finding), so the first block attached
-   after a 2-deep reorganisation in DPoS mode lowers LIH (4 -> 3 with
-   RevertToPOWStartHeight = 7: heights 1..10 forward, rollback to 8, block 9).
-   No block at or below LIH is detached by this (C30_no_detach_below_lih
-   covers failed and successful switches alike). *)
-Theorem C30_lih_monotone_after_rollback_refuted :
-  exists p i h dpos resume,
-    (exists bits, lih i = last (fwd p 0 bits irr0) 0 /\ 0 < lih i) /\
-    lih (irr_rollback h i) = lih i /\
-    lih (try_update p (h + 1) dpos resume (irr_rollback h i)) < lih i.
-Proof.
-  exists (mkParams 1 7 10).
-  exists (mkIrr 4 4 [(10, UKeep 3); (9, UKeep 2); (8, UKeep 1); (7, UInit 0 0)]).
-  exists 8, true, false. split.
-  - exists (repeat (true, false) 10). vm_compute. split; reflexivity.
-  - vm_compute. split; reflexivity.
-Qed.
-Print Assumptions C30_lih_monotone_after_rollback_refuted.
+(* Rolling back the block just processed restores the irreversibility state
+   exactly (LIH included: repair ac1a41f0 of C21's finding; before it the
+   advancing branch left LIH untouched and the first block attached after a
+   reorganisation LOWERED it, 4 -> 3 in the corpus history dpos-fork2).  So
+   after the detach phase of a reorganisation the state is the one the node had
+   at the fork point, and C30_lih_monotone_forward applies to the attach phase. *)
+Theorem C30_rollback_restores : forall p H i dpos resume,
+  desc (hist i) H -> irr_rollback H (try_update p (H + 1) dpos resume i) = i.
+Proof. exact rollback_restores. Qed.
+Print Assumptions C30_rollback_restores.
 
 (* Non-vacuity: DPoS mode, LIH = 4 at height 10; a 2-deep fork at height 8 is
    performed (detached 10, 9 > 4), a 7-deep fork at height 3 is refused. *)
